@@ -22,6 +22,8 @@ def seeded():
         conc = "-" if r is None else ("yes" if r.get("concrete_failing_input") else "no")
         if m.get("check_results", {}).get("thorough", {}).get("caught") and not (r and r["caught"]):
             res += " (thorough: caught)"
+        if m.get("also_caught_by"):
+            res += "; caught by " + m["also_caught_by"].split(" (")[0]
         rows.append("| `%s` | %s | %s | %s | %s |" % (m["id"], m["property"], m["needs_to_manifest"].replace("|", "\\|"), res, conc))
     return "\n".join(rows)
 
